@@ -132,12 +132,14 @@ class PolyhedralIoContract(IoContract):
 
         Raises:
             ValueError: dictionary provided was not well-formed.
-        """
+            ContractFormatError: a field of the dictionary has the wrong type.
+        """  # noqa: DAR401, DAR402 (raised by validate_contract_dict)
         if not isinstance(contract, dict):
             raise ValueError("A dict type contract is expected.")
         for kw in ("assumptions", "guarantees", "input_vars", "output_vars"):
             if kw not in contract:
                 raise ValueError(f"Passed dictionary does not have key {kw}.")
+        serializer.validate_contract_dict(contract, "passed to from_dict", machine_representation=True)
 
         if all(isinstance(x, dict) for x in contract["assumptions"]):
             a = PolyhedralTermList(
